@@ -454,6 +454,30 @@ func c13Caps(r *rng, id string) {
 		}
 		res = append(res, c.name+"="+st)
 	}
+	// a compression envelope that inflates far beyond the decompression cap (40 MiB): refused, and refused
+	// without inflating all of it first
+	{
+		bomb, err := ml.VerifCompressPayload(make([]byte, 256<<20))
+		if err == nil {
+			var ms0, ms1 runtime.MemStats
+			runtime.GC()
+			runtime.ReadMemStats(&ms0)
+			pan := rcv.ingest(bomb)
+			runtime.ReadMemStats(&ms1)
+			alloc := ms1.TotalAlloc - ms0.TotalAlloc
+			st := "ok"
+			if pan {
+				st = "panic"
+			} else if alloc > 320<<20 {
+				st = fmt.Sprintf("buffered:%dMiB", alloc>>20)
+			} else if len(rcv.del.take()) > 0 {
+				st = "processed"
+			}
+			res = append(res, fmt.Sprintf("decompress-bomb-%dKiB=%s", len(bomb)>>10, st))
+			bomb = nil
+			runtime.GC()
+		}
+	}
 	// the same question on a node that has a key (the length field of the encryption envelope is read
 	// before anything is authenticated): how much of what follows is taken off the connection?
 	if rcvE, err := newCnode(ccfg{name: "RE", key: []byte("0123456789abcdef"), verifyIn: true, verifyOut: true}); err == nil {
